@@ -77,6 +77,25 @@ def schemas(tier, seed):
                     if mx is not None:
                         s["exclusiveMaximum" if emx else "maximum"] = mx
                     out.append(s)
+    # both an inclusive and an exclusive bound on the same side (thin lattice, seeded sample in the quick tier)
+    thin_pts = lattice(True)
+    both = []
+    for fmt in FORMATS:
+        for a in thin_pts:
+            for b in thin_pts:
+                for other in (None, 127, 2**32):
+                    s1 = {"type": "integer", "minimum": a, "exclusiveMinimum": b}
+                    s2 = {"type": "integer", "maximum": a, "exclusiveMaximum": b}
+                    if fmt:
+                        s1["format"] = fmt
+                        s2["format"] = fmt
+                    if other is not None:
+                        s1["maximum"] = other
+                        s2["minimum"] = -other
+                    both += [s1, s2]
+    if tier == "quick":
+        both = util.rng(seed, PROP, "both").sample(both, 4000)
+    out += both
     return out, pts
 
 
